@@ -78,7 +78,132 @@ func cases(tier string, seed int64) []eng.Case {
 		id := fmt.Sprintf("ks/%d/%s/logN%d/q%v/p%v/%s", i, c.Ring, c.LogN, c.QBits, c.PBits, c.Xs)
 		out = append(out, eng.Case{ID: id, Sig: "C04|keyswitch", Desc: cc, Run: func(x *eng.Ctx) { runKS(x, cc) }})
 	}
+	// ring-degree switching: a small ring embedded in a larger one sharing the same moduli
+	nrd := n / 6
+	for i := 0; i < nrd; i++ {
+		c := cfg{Ring: "std", Xs: eng.Pick(r, "p0.5", "h8", "hN"), LogN: eng.Pick(r, 4, 5, 6)}
+		gapLog := 1 + r.N(2)
+		nq := 1 + r.N(4)
+		np := 1 + r.N(2)
+		if r.N(4) == 0 {
+			np = 0
+		}
+		for j := 0; j < nq; j++ {
+			c.QBits = append(c.QBits, eng.Pick(r, 36, 45, 50, 55, 60))
+		}
+		for j := 0; j < np; j++ {
+			c.PBits = append(c.PBits, eng.Pick(r, 45, 55, 60, 61))
+		}
+		c.Q, c.P = gen.Chain(r, uint64(2)<<(c.LogN+gapLog), c.QBits, c.PBits)
+		if c.Q == nil {
+			continue
+		}
+		cc, gl := c, gapLog
+		id := fmt.Sprintf("rdswitch/%d/logN%d+%d/q%v/p%v/%s", i, c.LogN, gapLog, c.QBits, c.PBits, c.Xs)
+		out = append(out, eng.Case{ID: id, Sig: "C04|ringdegree", Desc: cc, Run: func(x *eng.Ctx) { runRingDegree(x, cc, gl) }})
+	}
 	return out
+}
+
+// runRingDegree: ApplyEvaluationKey between a ring of degree n (small) and N = n<<gapLog (large), both ways.
+// small -> large: the plaintext m(Y) becomes m(X^{N/n}); large -> small: the plaintext is projected on the
+// coefficients whose index is a multiple of N/n.
+func runRingDegree(c *eng.Ctx, cf cfg, gapLog int) {
+	small, err := cf.params()
+	if err != nil {
+		c.Violate("C04|rlwe.NewParametersFromLiteral|error-on-admissible", err.Error(), cf)
+		return
+	}
+	cfL := cf
+	cfL.LogN = cf.LogN + gapLog
+	large, err := cfL.params()
+	if err != nil {
+		c.Violate("C04|rlwe.NewParametersFromLiteral|error-on-admissible", err.Error(), cfL)
+		return
+	}
+	rnd := c.Rand()
+	c.Sample(map[string]any{"kind": "ring-degree-switch", "small": cf, "gapLog": gapLog})
+	kgS, kgL := rlwe.NewKeyGenerator(small), rlwe.NewKeyGenerator(large)
+	skS, skL := kgS.GenSecretKeyNew(), kgL.GenSecretKeyNew()
+	eS := &env{c: c, cf: cf, params: small, kgen: kgS, sk: skS, n: small.N(), cif: 1}
+	eL := &env{c: c, cf: cfL, params: large, kgen: kgL, sk: skL, n: large.N(), cif: 1}
+	for _, e := range []*env{eS, eL} {
+		e.B, _ = obs.ErrBound(e.params)
+		_, e.H = obs.SecretBound(e.params)
+	}
+	gap := 1 << gapLog
+	evalL := rlwe.NewEvaluator(large, nil)
+	lqMax, lpMax := large.MaxLevelQ(), large.MaxLevelP()
+	for trial := 0; trial < 4; trial++ {
+		lq := lqMax
+		if trial > 0 {
+			lq = rnd.N(lqMax + 1)
+		}
+		lp := lpMax
+		w := 0
+		if lp <= 0 && rnd.Bool() {
+			w = 4 + rnd.N(20)
+		}
+		level := rnd.N(lq + 1)
+		isNTT := rnd.Bool()
+		evp := rlwe.EvaluationKeyParameters{LevelQ: &lq, LevelP: &lp, BaseTwoDecomposition: &w}
+		ksb := eL.ksBound(level, lp, w)
+		desc := fmt.Sprintf("Q=%v P=%v n=2^%d N=2^%d keyLevelQ=%d keyLevelP=%d w=%d ctLevel=%d isNTT=%v", cf.Q, cf.P, cf.LogN, cfL.LogN, lq, lp, w, level, isNTT)
+		kp := fmt.Sprintf("%d/%d/%v/%v/%d/%d/%d/%d/%v", cf.LogN, gapLog, cf.QBits, cf.PBits, lq, lp, w, level, isNTT)
+		// ---- small -> large
+		{
+			var evk *rlwe.EvaluationKey
+			if !c.Try("C04|KeyGenerator.GenEvaluationKeyNew|small-to-large", func() { evk = kgL.GenEvaluationKeyNew(skS, skL, evp) }) {
+				continue
+			}
+			msg := eS.randMsg(level)
+			ct := eS.freshCt(skS, msg, level, isNTT)
+			out := rlwe.NewCiphertext(large, 1, level)
+			var aerr error
+			if c.Try("C04|Evaluator.ApplyEvaluationKey|small-to-large", func() { aerr = evalL.ApplyEvaluationKey(ct, evk, out) }) {
+				if aerr != nil {
+					c.Violate("C04|Evaluator.ApplyEvaluationKey|small-to-large|error-on-admissible", aerr.Error()+" "+desc, cf)
+				} else {
+					rqL := large.RingQ().AtLevel(level)
+					want := rqL.NewPoly()
+					for i := 0; i <= level; i++ {
+						for j := 0; j < small.N(); j++ {
+							want.Coeffs[i][j*gap] = msg.Coeffs[i][j]
+						}
+					}
+					c.Check(out.IsNTT == isNTT && out.Level() == level, "C04|Evaluator.ApplyEvaluationKey|small-to-large|metadata", nil)
+					eL.judge("Evaluator.ApplyEvaluationKey|small-to-large", out.El(), skL, want, eS.B+ksb, "rds2l/"+kp, desc)
+				}
+			}
+		}
+		// ---- large -> small
+		{
+			var evk *rlwe.EvaluationKey
+			if !c.Try("C04|KeyGenerator.GenEvaluationKeyNew|large-to-small", func() { evk = kgL.GenEvaluationKeyNew(skL, skS, evp) }) {
+				continue
+			}
+			msg := eL.randMsg(level)
+			ct := eL.freshCt(skL, msg, level, isNTT)
+			out := rlwe.NewCiphertext(small, 1, level)
+			var aerr error
+			if c.Try("C04|Evaluator.ApplyEvaluationKey|large-to-small", func() { aerr = evalL.ApplyEvaluationKey(ct, evk, out) }) {
+				if aerr != nil {
+					c.Violate("C04|Evaluator.ApplyEvaluationKey|large-to-small|error-on-admissible", aerr.Error()+" "+desc, cf)
+				} else {
+					rqS := small.RingQ().AtLevel(level)
+					want := rqS.NewPoly()
+					for i := 0; i <= level; i++ {
+						for j := 0; j < small.N(); j++ {
+							want.Coeffs[i][j] = msg.Coeffs[i][j*gap]
+						}
+					}
+					c.Check(out.IsNTT == isNTT && out.Level() == level, "C04|Evaluator.ApplyEvaluationKey|large-to-small|metadata", nil)
+					// the projection keeps one coefficient out of gap: the noise bound of the large ring applies
+					eS.judgeBound("Evaluator.ApplyEvaluationKey|large-to-small", out.El(), skS, want, eL.B+ksb, "rdl2s/"+kp, desc)
+				}
+			}
+		}
+	}
 }
 
 func init() {
@@ -190,6 +315,10 @@ func (e *env) judge(name string, out *rlwe.Element[ring.Poly], skOut *rlwe.Secre
 	e.c.Check(f64(st.Max) <= bound, "C04|"+name+"|noise-above-worst-case-bound", func() string {
 		return fmt.Sprintf("%s: |phase-expected|inf=2^%.1f bound=2^%.1f Q_level=2^%d", detail, st.MaxLog2, math.Log2(bound), Ql.BitLen())
 	})
+}
+
+func (e *env) judgeBound(name string, out *rlwe.Element[ring.Poly], skOut *rlwe.SecretKey, want ring.Poly, bound float64, key string, detail string) {
+	e.judge(name, out, skOut, want, bound, key, detail)
 }
 
 func runKS(c *eng.Ctx, cf cfg) {
